@@ -216,6 +216,8 @@ fn zero_right_pad_integer_ascii_digits(
     debug_assert_ne!(digits.len(), 0);
 
     let integer_zero_count = match exp.to_usize() {
+        // zero has no integer digits to pad: print a single '0'
+        Some(_) if digits.as_slice() == b"0" => 0,
         Some(n) => n,
         None => { return; }
     };
